@@ -190,11 +190,27 @@ def pop_at_mode(model):
     return True
 
 
-def run_config(model_name, cfg, seed, workdir, n_ind=6, want_params=False, compare_to=None, reuse_algo=False, via_file=False):
+def run_config(model_name, cfg, seed, workdir, n_ind=6, want_params=False, compare_to=None, reuse_algo=False, via_file=False,
+               cohort_attempt=None):
+    """Run one real fit under the recorder (see _run_config).  A tiny cohort on which the calibration itself degenerates
+    (LeaspyConvergenceError: a variance collapsing to zero) says nothing about the schedule: another cohort is drawn
+    (info['cohort_attempt'] says which one was used; pass it back as cohort_attempt to run on the same cohort again)."""
+    attempts = range(4) if cohort_attempt is None else [cohort_attempt]
+    for attempt in attempts:
+        events, info = _run_config(model_name, cfg, seed, workdir, n_ind=n_ind, want_params=want_params, compare_to=compare_to,
+                                   reuse_algo=reuse_algo, via_file=via_file, cohort_seed=(seed % 5) + 7 * attempt)
+        info["cohort_attempt"] = attempt
+        degenerate = any(e["op"] == "RunEnd" and e.get("exc") == "LeaspyConvergenceError" for e in events)
+        if not degenerate:
+            return events, info
+    return events, info
+
+
+def _run_config(model_name, cfg, seed, workdir, n_ind=6, want_params=False, compare_to=None, reuse_algo=False, via_file=False, cohort_seed=0):
     """Run one real fit under the recorder.  Returns (events, info).  cfg may hold 'missing' (fraction of entries missing inside
     visits) and 'starve' (mixture model: the second cluster is placed far from every individual before the run)."""
     events = []
-    model, data, df = zoo.make(model_name, n_ind=n_ind, seed=seed % 5, missing=cfg.get("missing", 0.0))
+    model, data, df = zoo.make(model_name, n_ind=n_ind, seed=cohort_seed, missing=cfg.get("missing", 0.0))
     dataset = Dataset(data)
     ev0 = {"op": "RunStart", "n": cfg["n"], "burn": list(cfg["burn"]), "pw": list(cfg["pw"]), "rnd": cfg["rnd"],
            "ann_on": bool(cfg.get("ann")), "ann_spec": ["count", 0], "ann_p": 1, "ann_t0": [1, 1]}
@@ -229,7 +245,7 @@ def run_config(model_name, cfg, seed, workdir, n_ind=6, want_params=False, compa
             for run_no in range(2 if reuse_algo else 1):
                 if run_no == 1:
                     # the same algorithm object calibrates a second, fresh model (supported use): a new run for the specification
-                    model, data, df = zoo.make(model_name, n_ind=n_ind, seed=seed % 5)
+                    model, data, df = zoo.make(model_name, n_ind=n_ind, seed=cohort_seed)
                     ev0 = dict(ev0)
                     if info["exception"] is not None:
                         break
